@@ -35,12 +35,14 @@ package jws
 // added, removed or rewritten)
 //@ spec hdrHas(data bytes, k string) bool
 //@ spec hdrVal(data bytes, k string) any
+// JWK pre-decoding: key type, curve and the byte length of the x coordinate (-1: absent) are functions of the bytes
 //@ extern github.com/square/go-jose/v3/json.Unmarshal
 //@   params data, v
 //@   results err
 //@   ensures isType(v, "*jws.Headers") ==> (err == nil) == hdrJSONOK(data)
 //@   ensures err == nil && isType(v, "*jws.Headers") ==> deref(unbox(v, "*jws.Headers")) == hdrJSONOf(data)
 //@   ensures err == nil && isType(v, "*jws.Headers") ==> (forall k string :: (k in deref(unbox(v, "*jws.Headers"))) == hdrHas(data, k) && (hdrHas(data, k) ==> deref(unbox(v, "*jws.Headers"))[k] == hdrVal(data, k)))
+//@   ensures err == nil && isType(v, "*jsonWebKey") ==> unbox(v, "*jsonWebKey").Kty == jwkKtyOf(data) && unbox(v, "*jsonWebKey").Crv == jwkCrvOf(data) && (unbox(v, "*jsonWebKey").X == nil) == (jwkXLen(data) < 0) && (unbox(v, "*jsonWebKey").X != nil ==> len(unbox(v, "*jsonWebKey").X.data) == jwkXLen(data))
 //@ func checkJWSHeaders
 //@   ensures (result == nil) == ("alg" in headers)
 //@ func parseCompactedHeaders
@@ -91,9 +93,17 @@ package jws
 //@   ensures (result != nil) == curveKnown(curve)
 //@   ensures result != nil ==> fresh(result) && result.keySize == curveKeySize(curve) && result.hash == curveHash(curve)
 //
+// decoding a JWK: an Ed25519 key is accepted only with an x coordinate of exactly 32 bytes (go-jose zero-pads a
+// shorter and truncates a longer one, so either would alias a genuine key); the decoded kty / crv / length of x are
+// functions of the bytes (go-jose json.Unmarshal contract above), the key type and curve are recorded as decoded
+//@ spec jwkKtyOf(b bytes) string
+//@ spec jwkCrvOf(b bytes) string
+//@ spec jwkXLen(b bytes) int
 //@ func (*JWK).UnmarshalJSON
-//@   trusted
+//@   requires j != nil
 //@   modifies all(j)
+//@   ensures result == nil && jwkKtyOf(jwkBytes) == "OKP" && jwkCrvOf(jwkBytes) == "Ed25519" ==> jwkXLen(jwkBytes) == 32
+//@   ensures result == nil ==> j.Kty == jwkKtyOf(jwkBytes) && j.Crv == jwkCrvOf(jwkBytes)
 //
 // secp256k1 keys are decoded by the library itself: both coordinates must have exactly the curve's byte size (the
 // curve arithmetic underneath silently truncates longer values, so a longer coordinate would alias the genuine key)
